@@ -71,6 +71,7 @@ def init : St := { step := .waiting, other := none, K := .zero, installed := non
 inductive Out
   | http500
   | tlv (state : Nat) (err : Option Nat) (hasKey hasEnc : Bool)
+  | panic                             -- the handler panics (net/http then drops the connection without an answer)
 deriving DecidableEq, Repr
 
 def openSealed (st : St) : EncData → Option Plain
@@ -98,10 +99,10 @@ def step (fixed : Bool) (c : Nat) (db : Store) (st : St) : In → St × Out
     let st0 := { st with step := .waiting }
     if st.step ≠ .startResp then (st0, .http500)
     else match d with
-      | .short _ => (st0, .http500)
+      | .short _ => (st0, if fixed then .http500 else .panic)
       | .sealed k nonceOk intact pt =>
         match openSealed st (.sealed k nonceOk intact pt) with
-        | none => (st0, .tlv 4 (some 2) false false)
+        | none => (st0, if fixed then .tlv 4 (some 2) false false else .panic)
         | some .malformed => (st0, .http500)
         | some (.tlv name sig) =>
           match db name with
